@@ -1,6 +1,7 @@
 import Reduino.Driver.Util
 import Reduino.Driver.Core
 import Reduino.Fw.Lcd
+import Reduino.Fw.LcdAnim
 /- Line protocol for the LCD text models: `lcdtext|fw|cols rows|op|op…` and `lcdtext|host|cols rows|op|op…` -/
 namespace Reduino.Driver
 open Reduino Reduino.Lcd
@@ -75,8 +76,73 @@ def runLcdHost (cols rows : Nat) (ops : List String) : String :=
       | _ => ("bad-op" :: acc).reverse
   "|".intercalate (go (Host.LCD.create cols rows) ops [])
 
+def style? (s : String) : Style :=
+  if s == "blink" then .blink else if s == "typewriter" then .typewriter else if s == "bounce" then .bounce else .scroll
+
+structure AnimSpec where
+  style : Style
+  row : Nat
+  text : List Char
+  speed : Nat
+  loop : Bool
+
+def animSpecs (s : String) : List AnimSpec :=
+  (s.splitOn ";").filterMap fun a =>
+    match words a with
+    | [st, row, t, sp, lp] => some ⟨style? st, row.toNat!, txt t, sp.toNat!, lp == "T"⟩
+    | _ => none
+
+def showActives (l : List Anim) : String := String.join (l.map fun a => if a.active then "1" else "0")
+
+/-- firmware: setup starts the animations, every pass ticks each one (one millis() per active animation) then sleeps -/
+def runAnimFw (cols rows : Nat) (drifts : List Nat) (sleepMs passes : Nat) (specs : List AnimSpec) : String :=
+  let (anims, g0) := specs.foldl (fun (acc : List Anim × Grid) sp =>
+      let (a, o) := Fw.start sp.style acc.2 cols sp.row sp.text sp.speed sp.loop
+      (acc.1 ++ [a], o.grid)) ([], blank cols rows)
+  let rec tickAll (as : List Anim) (g : Grid) (now : Nat) (ds : List Nat) (done : List Anim) (stepped : String) :
+      List Anim × Grid × Nat × List Nat × String :=
+    match as with
+    | [] => (done, g, now, ds, stepped)
+    | a :: rest =>
+      if a.active then
+        let (now', ds') := match ds with | [] => (now, []) | d :: r => (now + d, r)
+        let (a', o, st) := Fw.tick a g cols now'
+        tickAll rest o.grid now' ds' (done ++ [a']) (stepped ++ (if st then "s" else "-"))
+      else tickAll rest g now ds (done ++ [a]) (stepped ++ ".")
+  let rec go (k : Nat) (as : List Anim) (g : Grid) (now : Nat) (ds : List Nat) (acc : List String) : List String :=
+    match k with
+    | 0 => acc.reverse
+    | k + 1 =>
+      let (as', g', now', ds', st) := tickAll as g now ds [] ""
+      go k as' g' (now' + sleepMs) ds' (s!"{showGrid g'} a={showActives as'} t={st}" :: acc)
+  "|".intercalate (go passes anims g0 0 drifts [s!"{showGrid g0} a={showActives anims} t="])
+
+def runAnimHost (cols rows : Nat) (times : List Nat) (specs : List AnimSpec) : String :=
+  let (anims, g0) := specs.foldl (fun (acc : List Anim × Grid) sp =>
+      let (a, g) := Host.animate sp.style acc.2 cols sp.row sp.text sp.speed sp.loop
+      (acc.1 ++ [a], g)) ([], blank cols rows)
+  let tickAll (as : List Anim) (g : Grid) (now : Nat) : List Anim × Grid × String :=
+    as.foldl (fun (acc : List Anim × Grid × String) a =>
+      let (a', g', st) := Host.tick a acc.2.1 cols now
+      (acc.1 ++ [a'], g', acc.2.2 ++ (if st then "s" else "-"))) ([], g, "")
+  let rec go (ts : List Nat) (as : List Anim) (g : Grid) (acc : List String) : List String :=
+    match ts with
+    | [] => acc.reverse
+    | t :: rest =>
+      let (as', g', st) := tickAll as g t
+      go rest as' g' (s!"{showGrid g'} a={showActives as'} t={st}" :: acc)
+  "|".intercalate (go times anims g0 [s!"{showGrid g0} a={showActives anims} t="])
+
 def handleLcd (fields : List String) : Option String :=
   match fields with
+  | ["lcdanim", "fw", geom, drifts, sl, passes, specs] =>
+    match (words geom).map String.toNat! with
+    | [c, r] => some (runAnimFw c r ((words drifts).map String.toNat!) sl.toNat! passes.toNat! (animSpecs specs))
+    | _ => some "bad-op"
+  | ["lcdanim", "host", geom, times, specs] =>
+    match (words geom).map String.toNat! with
+    | [c, r] => some (runAnimHost c r ((words times).map String.toNat!) (animSpecs specs))
+    | _ => some "bad-op"
   | "lcdtext" :: side :: geom :: ops =>
     match (words geom).map String.toNat! with
     | [c, r] => some (if side == "fw" then runLcdFw c r ops else runLcdHost c r ops)
